@@ -26,8 +26,8 @@ class Ob:
     def __init__(s, name, harness, roots, what, bound, stubs=(), ir='inl', model='bit', rename=None, shrink=(),
                  variants=None, unwind=None, unwindset=(), flags=(), timeout=300, mem_gb=8, tier='quick', real=True,
                  validate=True, nvec=60, wrap_files=False, excludes=(), defines=None, witness=True, no_unwind_assert=False,
-                 solver='cadical', real_stub_syms=(), retry_defines=(), fallback=None, callrename=None, unwinding_is_property=False):
-        s.unwinding_is_property = unwinding_is_property
+                 solver='cadical', real_stub_syms=(), retry_defines=(), fallback=None, callrename=None, unwinding_is_property=False, mem_est_gb=3):
+        s.unwinding_is_property = unwinding_is_property; s.mem_est_gb = mem_est_gb      # expected peak RSS of one query: the scheduler keeps the sum below MEM_BUDGET_GB
         s.callrename = {(a, b): c for a, d in (callrename or {}).items() for b, c in d.items()}
         s.retry_defines = list(retry_defines); s.fallback = fallback
         s.name, s.harness, s.roots, s.what, s.bound = name, harness, list(roots), what, bound
@@ -236,7 +236,8 @@ def validate(run, ob, v, d):
             rc2, out2 = run_native(rl, seed=seed)
             if rc2 == 77 or rc2 == 'timeout': res['skipped'] += 1; continue      # a native time-out during differential validation is not a verdict
             res['compared'] += 1
-            if (rc1, sig(out1)) != (rc2, sig(out2)):
+            both_fail = rc1 == 1 and rc2 not in (0, 77)      # the translated run fails its CHECK and the real code fails too (CHECK, sanitizer report or crash): agreement on failure; the real failure is reported below
+            if not both_fail and (rc1, sig(out1)) != (rc2, sig(out2)):
                 res['disagreements'].append(dict(seed=seed, translated=[rc1, out1[-600:]], real=[rc2, out2[-600:]]))
         else:
             res['compared'] += 1
@@ -272,7 +273,19 @@ def load_findings():
         if m: out.append(dict(property=m.group(1), id=m.group(2), obligation=m.group(3), what=m.group(4), status='known'))
     return out
 
+MEM_BUDGET_GB = 40
+_mem_cv = threading.Condition(); _mem_used = [0]
 def process(run, ob, v, findings):
+    need = min(ob.mem_est_gb, MEM_BUDGET_GB)
+    with _mem_cv:
+        while _mem_used[0] + need > MEM_BUDGET_GB: _mem_cv.wait()
+        _mem_used[0] += need
+    try:
+        return process_(run, ob, v, findings)
+    finally:
+        with _mem_cv:
+            _mem_used[0] -= need; _mem_cv.notify_all()
+def process_(run, ob, v, findings):
     """one obligation variant: translate, validate, proof (+exclusions), witness; returns result record"""
     rec = dict(obligation=ob.name, variant=v, what=ob.what, bound=ob.bound, model=ob.model, queries=[], status='holds', notes=[])
     t0 = time.time()
